@@ -492,6 +492,11 @@ class TaskDispatcher(object):
                     if not nt.loader:
                         nt.loader = DelayedLoaded
                     self.tasks[nt.name] = nt
+                # the same creator might be referenced by other tasks (one
+                # for each name in `creates`), it must not be executed again
+                for other in self.tasks.values():
+                    if other.loader and other.loader.creator is ref:
+                        other.loader.created = True
             # check itself for implicit dep (used by regex_target)
             TaskControl.add_implicit_task_dep(
                 self.targets, this_task, this_task.file_dep)
